@@ -26,6 +26,10 @@ class PhysGen:
         if ids and isinstance(ids[0], (list, tuple)):
             ids = list(rng.choice(ids))
         self.id_pool = ids
+        if ids and any("/" in i and not i.startswith(("/", ".")) and ".." not in i for i in ids) and rng.random() < 0.8 \
+                and (not layouts or "0002-flat-direct-storage-layout" in layouts):
+            # ids that are paths only nest under the direct layout
+            self.layout = "0002-flat-direct-storage-layout"
         self.hostile_roots = hostile_roots
         self.weights = weights or [30, 6, 10, 10, 8, 5, 2, 24, 3, 3]
         self.paths = {}
